@@ -111,6 +111,21 @@ NEEDS = {
  "C17g": "HELD-OUT 2: two outputs whose cones share a gate with more than two inputs, plus a look-alike helper name in one cone or a particular set order (PYTHONHASHSEED 5, 9 of 0..19)",
  "C18g": "HELD-OUT 2: a cyclic circuit with a primary input that is also an output",
  "C19g": "HELD-OUT 2: sensitization_transform / influence / avg_sensitivity with endpoints on an internal node or with another output in the endpoint's cone",
+ "C01h": "HELD-OUT 3: a blackbox instance whose input pin has a driver (bb_input encoded as the negation of its driver)",
+ "C03h": "HELD-OUT 3: a node whose name starts with tie_0 / tie_1 / tie_x without being one of them (tie_1_en, tie_00, tie_x2); constants in both styles, gates with behavioral=True",
+ "C04h": "HELD-OUT 3: an xnor with exactly one fan-in inside the cone of a compared endpoint (sat.cnf encodes it as a buffer)",
+ "C05h": "HELD-OUT 3: a constant node ('0'/'1') that drives more than k loads (limit_fanout never visits constants)",
+ "C06h": "HELD-OUT 3: add_subcircuit with a LIST-valued connection for a child output ({'o0': ['x', 'y']})",
+ "C07h": "HELD-OUT 3: set_output called with a list/set that contains a name which is not a node (creates a typeless node)",
+ "C08h": "HELD-OUT 3: exact model_count on a circuit with a parity helper variable (xor/xnor with >= 3 operands, any xnor) under a hash order that gives a free startpoint one of the last variable ids (9 of 12 seeds on the demo)",
+ "C09h": "HELD-OUT 3: tx.unroll with n >= 2 and a state pair {x: x} (an input that is also an output paired with itself)",
+ "C10h": "HELD-OUT 3: a second ternary() call in the same interpreter whose or/nor operand has a companion name already seen in an earlier call (memo in a mutable default argument)",
+ "C11h": "HELD-OUT 3: sensitization_transform called repeatedly with the SAME endpoints set object for nodes that reach different subsets of it (the set is narrowed in place)",
+ "C15h": "HELD-OUT 3: a bench gate line with a blank or tab BEFORE a comma in the operand list",
+ "C16h": "HELD-OUT 3: remove_unloaded(inputs=True) on a circuit with a primary input that had no load before the call (('bb_input') is a string: substring test)",
+ "C17h": "HELD-OUT 3: one primary output inside the cone of another, with a side path from one of its fan-ins around it",
+ "C18h": "HELD-OUT 3: two feedback edges with different sources plus a forward edge from the cut node of one loop into the re-entry gate of the other (batched disconnect removes the cross product)",
+ "C19h": "HELD-OUT 3: circuit_to_bench / to_file(fmt='bench') of a circuit with constants but no primary input",
  "C18d": "(helper: Circuit.disconnect testing `u in us` with a single name, i.e. a substring test) a cut feedback node whose name contains the name of another driver of one of its loads (n12 / n1)",
  "C19c": "influence/avg_sensitivity with supergates=True and a peer failure in the middle (solver raises, pysat unimportable, approxmc missing or exit 1)",
  "C19": "tx.subcircuit asked for ALL nodes of a blackbox-free circuit (directly or through sensitization_transform / influence with an endpoint whose cone is the whole circuit), then any edit or the internal set_output",
@@ -139,7 +154,9 @@ def main():
         if not os.path.isfile(os.path.join(d, "patch.diff")) or (only and sid not in only):
             continue
         prop = sid[:3]
-        if sid.endswith("g"):
+        if sid.endswith("h"):
+            src2 = " (round 8, third held-out measurement: property text plus the list of all earlier changes not to repeat)"
+        elif sid.endswith("g"):
             src2 = " (round 7, second held-out measurement: property text plus the list of all earlier changes not to repeat)"
         elif sid.endswith("f"):
             src2 = " (round 6, held-out measurement: only the property text and the list of earlier changes not to repeat)"
